@@ -5,6 +5,8 @@ package compose_test
 // producers chunk their output; failures are visible in all four.
 
 import (
+	"sync/atomic"
+	"time"
 	"context"
 	"fmt"
 	"testing"
@@ -59,8 +61,13 @@ func genC04(t *rapid.T) CaseC04 {
 		cfg.MaxNodes = 8
 		cfg.Depth = 2
 	}
-	mode := []string{"pregel", "pregel", "dag", "workflow", "chain"}[rapid.IntRange(0, 4).Draw(t, "mode")]
-	c := CaseC04{Spec: gkit.GenTop(t, mode, cfg)}
+	var c CaseC04
+	if rapid.IntRange(0, 7).Draw(t, "wide") == 0 {
+		c = CaseC04{Spec: gkit.GenWide(t, cfg)}
+	} else {
+		mode := []string{"pregel", "pregel", "dag", "workflow", "chain"}[rapid.IntRange(0, 4).Draw(t, "mode")]
+		c = CaseC04{Spec: gkit.GenTop(t, mode, cfg)}
+	}
 	c.Input = gkit.GenInput(t, c.Spec.In)
 	c.InChunks = rapid.IntRange(1, 3).Draw(t, "inChunks")
 	if rapid.IntRange(0, 5).Draw(t, "withFault") == 0 {
@@ -151,11 +158,27 @@ func containsRune(s string, r rune) bool {
 	return false
 }
 
+var c04Rec *vkit.Recorder
+var c04Progress int64
+
 func checkC04(c CaseC04) (*vkit.Failure, vkit.Meta) {
 	var m vkit.Meta
 	if c.Spec == nil {
 		return nil, m
 	}
+	if c04Rec == nil {
+		return checkC04Inner(c, &m), m
+	}
+	// "never a hang in only some paradigms": a stuck case is reported by the no-progress watchdog
+	f := vkit.Watchdog(c04Rec, c, 30*time.Second, func() int64 { return atomic.LoadInt64(&c04Progress) }, func() *vkit.Failure {
+		return checkC04Inner(c, &m)
+	})
+	return f, m
+}
+
+func checkC04Inner(c CaseC04, mp *vkit.Meta) *vkit.Failure {
+	var m vkit.Meta
+	defer func() { *mp = m }()
 	f := vkit.Guard("panic-escaped", func() *vkit.Failure {
 		in := fixInput(c.Spec, c.Input)
 		ref := gkit.Ref(c.Spec, "", in, gkit.RefOpts{})
@@ -181,6 +204,7 @@ func checkC04(c CaseC04) (*vkit.Failure, vkit.Meta) {
 		for _, p := range []string{"invoke", "stream", "collect", "transform"} {
 			env := gkit.NewEnv("c04-" + p)
 			env.MaxRunsPerNode = 400
+			env.Hook = func(context.Context, *gkit.NodeSpec, string, string) { atomic.AddInt64(&c04Progress, 1) }
 			cctx := env.With(ctx)
 			pr := &paraResult{}
 			var out any
@@ -247,14 +271,15 @@ func checkC04(c CaseC04) (*vkit.Failure, vkit.Meta) {
 		}
 		return nil
 	})
-	return f, m
+	return f
 }
 
 func TestC04(t *testing.T) {
-	rec := vkit.NewRecorder("C04")
-	vkit.Prop(t, rec, genC04, checkC04)
+	c04Rec = vkit.NewRecorder("C04")
+	vkit.Prop(t, c04Rec, genC04, checkC04)
 }
 
 func TestC04Replay(t *testing.T) {
+	c04Rec = vkit.NewRecorder("C04")
 	vkit.Replay(t, "C04", checkC04)
 }
